@@ -1,0 +1,199 @@
+//go:build verif
+// +build verif
+
+/*
+ * Copyright 2023 CloudWeGo Authors
+ *
+ * Licensed under the Apache License, Version 2.0 (the "License");
+ * you may not use this file except in compliance with the License.
+ * You may obtain a copy of the License at
+ *
+ *     http://www.apache.org/licenses/LICENSE-2.0
+ *
+ * Unless required by applicable law or agreed to in writing, software
+ * distributed under the License is distributed on an "AS IS" BASIS,
+ * WITHOUT WARRANTIES OR CONDITIONS OF ANY KIND, either express or implied.
+ * See the License for the specific language governing permissions and
+ * limitations under the License.
+ */
+
+package shmipc
+
+import "sync/atomic"
+
+// verification hook points (build tag verif); see verif_hooks_on.go
+const (
+	vpPopReserved = iota
+	vpPopLoopTop
+	vpPopHasNext
+	vpPopCleared
+	vpPopInUsed
+	vpPushReset
+	vpPushLoadedTail
+	vpPushCASed
+	vpPushLinked
+	vpLinkNextMid
+	vpQPopNonEmpty
+	vpQPopLoad1
+	vpQPopLoad2
+	vpQPopBeforeHead
+	vpQPutChecked
+	vpQPutStore1
+	vpQPutStore2
+	vpQPutBeforeTail
+	vpMNWStored0
+	vpMNWBeforeStore1
+	vpWakeMarked
+	vpWakeSlow
+	vpSendLoopBeforeCAS
+	vpWriteEventEnter
+	vpSessCloseCASed
+	vpSessCloseBeforeCh
+	vpSessTeardownBegin
+	vpSessTeardownBeforeUnmap
+	vpSessTeardownEnd
+	vpEventDispatch
+	vpPollPopped
+	vpPollBeforeMNW
+	vpHandshake
+	vpReadMoreBeforeWait
+	vpFlushStateChecked
+	vpFlushPut
+	vpFallbackBeforeSend
+	vpStreamCloseEnter
+	vpStreamCloseCASed
+	vpStreamCloseBeforeNotify
+	vpHalfClosed
+	vpFillAdded
+	vpFillBeforeNotify
+	vpFillBeforeCbCAS
+	vpCbBeforeStore0
+	vpCbAfterStore0
+	vpCbBeforeRecheck
+	vpSMWatcherLost
+	vpSMRebuildBefore
+	vpSMRebuildAfter
+	vpSMHotRestartBeforeNew
+	vpSMHotRestartAfterNew
+	vpPoolPopped
+	vpPoolBeforePush
+	vpLnHotRestartSent
+	vpLnAck
+	vpConnWriteEnter
+	vpConnWriteExit
+	vpConnWriteEAGAIN
+	vpConnWritePartial
+	vpConnRead
+	vpPointCount
+)
+
+var vpPointNames = [...]string{
+	vpPopReserved:             "PopReserved",
+	vpPopLoopTop:              "PopLoopTop",
+	vpPopHasNext:              "PopHasNext",
+	vpPopCleared:              "PopCleared",
+	vpPopInUsed:               "PopInUsed",
+	vpPushReset:               "PushReset",
+	vpPushLoadedTail:          "PushLoadedTail",
+	vpPushCASed:               "PushCASed",
+	vpPushLinked:              "PushLinked",
+	vpLinkNextMid:             "LinkNextMid",
+	vpQPopNonEmpty:            "QPopNonEmpty",
+	vpQPopLoad1:               "QPopLoad1",
+	vpQPopLoad2:               "QPopLoad2",
+	vpQPopBeforeHead:          "QPopBeforeHead",
+	vpQPutChecked:             "QPutChecked",
+	vpQPutStore1:              "QPutStore1",
+	vpQPutStore2:              "QPutStore2",
+	vpQPutBeforeTail:          "QPutBeforeTail",
+	vpMNWStored0:              "MNWStored0",
+	vpMNWBeforeStore1:         "MNWBeforeStore1",
+	vpWakeMarked:              "WakeMarked",
+	vpWakeSlow:                "WakeSlow",
+	vpSendLoopBeforeCAS:       "SendLoopBeforeCAS",
+	vpWriteEventEnter:         "WriteEventEnter",
+	vpSessCloseCASed:          "SessCloseCASed",
+	vpSessCloseBeforeCh:       "SessCloseBeforeCh",
+	vpSessTeardownBegin:       "SessTeardownBegin",
+	vpSessTeardownBeforeUnmap: "SessTeardownBeforeUnmap",
+	vpSessTeardownEnd:         "SessTeardownEnd",
+	vpEventDispatch:           "EventDispatch",
+	vpPollPopped:              "PollPopped",
+	vpPollBeforeMNW:           "PollBeforeMNW",
+	vpHandshake:               "Handshake",
+	vpReadMoreBeforeWait:      "ReadMoreBeforeWait",
+	vpFlushStateChecked:       "FlushStateChecked",
+	vpFlushPut:                "FlushPut",
+	vpFallbackBeforeSend:      "FallbackBeforeSend",
+	vpStreamCloseEnter:        "StreamCloseEnter",
+	vpStreamCloseCASed:        "StreamCloseCASed",
+	vpStreamCloseBeforeNotify: "StreamCloseBeforeNotify",
+	vpHalfClosed:              "HalfClosed",
+	vpFillAdded:               "FillAdded",
+	vpFillBeforeNotify:        "FillBeforeNotify",
+	vpFillBeforeCbCAS:         "FillBeforeCbCAS",
+	vpCbBeforeStore0:          "CbBeforeStore0",
+	vpCbAfterStore0:           "CbAfterStore0",
+	vpCbBeforeRecheck:         "CbBeforeRecheck",
+	vpSMWatcherLost:           "SMWatcherLost",
+	vpSMRebuildBefore:         "SMRebuildBefore",
+	vpSMRebuildAfter:          "SMRebuildAfter",
+	vpSMHotRestartBeforeNew:   "SMHotRestartBeforeNew",
+	vpSMHotRestartAfterNew:    "SMHotRestartAfterNew",
+	vpPoolPopped:              "PoolPopped",
+	vpPoolBeforePush:          "PoolBeforePush",
+	vpLnHotRestartSent:        "LnHotRestartSent",
+	vpLnAck:                   "LnAck",
+	vpConnWriteEnter:          "ConnWriteEnter",
+	vpConnWriteExit:           "ConnWriteExit",
+	vpConnWriteEAGAIN:         "ConnWriteEAGAIN",
+	vpConnWritePartial:        "ConnWritePartial",
+	vpConnRead:                "ConnRead",
+}
+
+// verifHookFn is installed by the verification harness. obj is the object the point
+// belongs to (*Session, *Stream, *SessionManager, *connEventHandler or nil), n a point specific number.
+type verifHookFn func(point int, obj interface{}, n int64)
+
+// verifPopHooks is the ABA-suspect detector for bufferList.pop, installed by the harness.
+type verifPopHooks struct {
+	begin func(b *bufferList) uint64
+	won   func(b *bufferList, slotOffset uint32, begin uint64)
+}
+
+var (
+	verifHook     atomic.Value // *verifHookFn
+	verifPopHook  atomic.Value // *verifPopHooks
+	verifHookHits [vpPointCount]uint64
+)
+
+func vp(point int) {
+	atomic.AddUint64(&verifHookHits[point], 1)
+	if h, _ := verifHook.Load().(*verifHookFn); h != nil {
+		(*h)(point, nil, 0)
+	}
+}
+
+func vpo(point int, obj interface{}, n int64) {
+	atomic.AddUint64(&verifHookHits[point], 1)
+	if h, _ := verifHook.Load().(*verifHookFn); h != nil {
+		(*h)(point, obj, n)
+	}
+}
+
+func vpPopBegin(b *bufferList) uint64 {
+	if h, _ := verifPopHook.Load().(*verifPopHooks); h != nil && h.begin != nil {
+		return h.begin(b)
+	}
+	return 0
+}
+
+func vpPopReload(b *bufferList) uint64 {
+	return vpPopBegin(b)
+}
+
+func vpPopWon(b *bufferList, slotOffset uint32, begin uint64) {
+	if h, _ := verifPopHook.Load().(*verifPopHooks); h != nil && h.won != nil {
+		h.won(b, slotOffset, begin)
+	}
+}
